@@ -11,7 +11,7 @@ import (
 var gNamesMem = []string{"a", "a.txt", "dir/a", "dir/b.txt", "sp ace.bin", "uni-é☃", "pct%41%2Fx", "a+b&c=d?e#f", "dir/sub/deep.json", "d.o.t.s", "a/b", "a0"}
 var gNamesFile = []string{"a.txt", "a/1", "a-x", "dir/a", "dir/b.txt", "sp ace.bin", "uni-é☃", "pct%41%2Fx", "a+b&c=d?e#f", "dir/sub/deep.json", "d.o.t.s", "a0", "b"}
 var gBuckets = []string{"bkt", "other-bucket"}
-var gContentTypes = []string{"text/plain", "application/octet-stream", "application/json; charset=utf-8", "image/png", ""}
+var gContentTypes = []string{"text/plain", "application/octet-stream", "application/json; charset=utf-8", "image/png", "", "application/x-www-form-urlencoded"}
 
 type gGen struct {
 	store string
@@ -143,7 +143,7 @@ func (g *gGen) resum(d *draws, n int) *resumPlan {
 // upload consumes a bounded number of draws (< 40).
 func (g *gGen) upload(d *draws, bucket, name string, conds gConds) gOp {
 	content := g.content(d)
-	u := upSpec{Bucket: bucket, Name: name, Content: content, Conds: conds, ContentType: gContentTypes[d.w(4, 2, 2, 1, 2)], Gzip: d.n(6) == 5}
+	u := upSpec{Bucket: bucket, Name: name, Content: content, Conds: conds, ContentType: gContentTypes[d.w(8, 4, 4, 2, 4, 1)], Gzip: d.n(6) == 5}
 	op := gOp{Kind: "Upload", Up: u}
 	proto := d.w(4, 4, 4)
 	plan := g.resum(d, len(content))
